@@ -488,7 +488,7 @@ func lops(rs []rec) []hutil.LOp {
 func (harness) Run(cfg xplore.Config, ch vrt.Chooser, trace bool) (xplore.Outcome, *vrt.Result) {
 	d := cfg.Data.(cfgData)
 	var out xplore.Outcome
-	res := vrt.Run(ch, vrt.Options{Trace: trace}, func() {
+	res := vrt.Run(ch, vrt.Options{Trace: trace, FreeSwitch: true}, func() {
 		t := &ctree.Tree{}
 		init := &mst{tree: map[string]int{}, val: map[int]string{}, handles: map[int]int{}, q: map[int]*qacc{}}
 		for _, p := range d.init {
